@@ -155,14 +155,21 @@ func (n *Notifier) PublishContext(ctx context.Context, key any, value any) {
 		if keySubscriber.ctx != nil && keySubscriber.ctx.Err() != nil {
 			continue
 		}
-		if !valueRef.Type().AssignableTo(keySubscriber.target.Type().Elem()) {
+		sendRef := valueRef
+		if elem := keySubscriber.target.Type().Elem(); !valueRef.IsValid() {
+			// untyped nil (has no type), which may be sent to any target with an element type which may be nil
+			if !typeNilable(elem) {
+				continue
+			}
+			sendRef = reflect.Zero(elem)
+		} else if !valueRef.Type().AssignableTo(elem) {
 			continue
 		}
 		if keySubscriber.ctx != nil {
 			failureCases = append(failureCases, reflect.SelectCase{Dir: reflect.SelectRecv, Chan: reflect.ValueOf(keySubscriber.ctx.Done())})
 			failureRefs = append(failureRefs, len(successCases))
 		}
-		successCases = append(successCases, reflect.SelectCase{Dir: reflect.SelectSend, Chan: keySubscriber.target, Send: valueRef})
+		successCases = append(successCases, reflect.SelectCase{Dir: reflect.SelectSend, Chan: keySubscriber.target, Send: sendRef})
 	}
 
 	for len(successCases) != 0 {
